@@ -847,6 +847,68 @@ pub fn c14(tier: &str, acc: &mut Acc, bounds: &mut Vec<String>) {
     }
     acc.merge(am);
     bounds.push("all merges of the next() call sequences of 2 (and 3) iterators over 3 pattern sets x both variants x 3 kinds; image unchanged after every complete merge".into());
+    // --- sequences of whole searches on ONE thread, over TWO automata: state kept outside the
+    //     automaton (a thread-local or static cache) must not leak from one search into the next.
+    //     The expected result of every operation is computed on a fresh OS thread. -------------------
+    {
+        let mut asq = Acc::new();
+        let sets: [Vec<&str>; 2] = [vec!["ab", "b", "bca"], vec!["ba", "a", "cab"]];
+        let csets: [Vec<&str>; 2] = [vec!["\u{4e16}b", "b", "b\u{4e16}a"], vec!["b\u{4e16}", "\u{4e16}", "ab\u{4e16}"]];
+        let hays: [&str; 3] = ["abcab", "bcaba", "cabab"];
+        let chays: [&str; 3] = ["a\u{4e16}b\u{4e16}ab", "b\u{4e16}ab\u{4e16}", "ab\u{4e16}b"];
+        for variant in Variant::ALL {
+            for kind in Kind::ALL {
+                let (ps, hs) = if variant == Variant::Byte { (&sets, &hays) } else { (&csets, &chays) };
+                let cfg = Cfg::new(variant, kind, None, Entry::Builder);
+                let pats: Vec<Vec<Vec<u8>>> = ps.iter().map(|s| s.iter().map(|p| p.as_bytes().to_vec()).collect()).collect();
+                set_case(prop, "merges", e2::case_json(&cfg, &pats[0], None));
+                let autos: Vec<Built> = pats.iter().filter_map(|p| e2::build_or_violate(prop, "merges", cfg, p, None, &mut asq)).collect();
+                if autos.len() != 2 {
+                    continue;
+                }
+                let ms = Method::for_kind(kind);
+                // operations: (automaton, method, haystack)
+                let mut ops: Vec<(usize, Method, usize)> = Vec::new();
+                for a in 0..2 {
+                    for (mi, &m) in ms.iter().enumerate() {
+                        ops.push((a, m, (a + mi) % 3));
+                    }
+                }
+                ops.truncate(6);
+                // expected results on fresh threads (no thread-local state can carry over)
+                let expected: Vec<Vec<M>> = ops
+                    .iter()
+                    .map(|&(a, m, h)| {
+                        let au = &autos[a];
+                        let hay = hs[h].as_bytes();
+                        std::thread::scope(|sc| sc.spawn(|| au.auto.run(m, hay)).join().unwrap())
+                    })
+                    .collect();
+                // every order of the operations, one after the other on this thread
+                for perm in permutations(ops.len()) {
+                    asq.evals += 1;
+                    asq.nontrivial += 1;
+                    for &oi in &perm {
+                        let (a, m, h) = ops[oi];
+                        let got = autos[a].auto.run(m, hs[h].as_bytes());
+                        asq.traces += 1;
+                        if got != expected[oi] {
+                            let mut c = e2::case_json(&cfg, &pats[a], None);
+                            c.as_object_mut().unwrap().insert("check".into(), json!("threads"));
+                            c.as_object_mut().unwrap().insert("sequence".into(), json!(perm.iter().map(|&i| format!("automaton {} {} {:?}", ops[i].0, ops[i].1.name(), hs[ops[i].2])).collect::<Vec<_>>()));
+                            asq.violate(prop, "merges", format!("a sequence of searches on one thread changes a result: {} on automaton {} over {:?} returned {:?}, on a fresh thread it returns {:?} (state leaks between searches)", m.name(), a, hs[h], got, expected[oi]), c);
+                            break;
+                        }
+                    }
+                    if !asq.violations.is_empty() {
+                        break;
+                    }
+                }
+            }
+        }
+        acc.merge(asq);
+        bounds.push("all orders of 6 whole searches over two automata on one thread (expected results from fresh threads) x both variants x 3 kinds".into());
+    }
     // --- searching does not write to the automaton: byte snapshot of the object itself ---------
     let mut asn = Acc::new();
     for (pi, ps) in pat_sets.iter().enumerate() {
